@@ -14,15 +14,15 @@ def Rec.core (r : Rec) : String × Nat × List Nat × List (TransId × Nat) :=
 
 def WState.Ext (a b : WState) : Prop :=
   (∃ l, b.contexts = a.contexts ++ l) ∧ (∃ l, b.routes = a.routes ++ l) ∧
-  (∃ l, b.sequence.map Rec.core = a.sequence.map Rec.core ++ l)
+  (∃ l, b.sequence.map Rec.core = a.sequence.map Rec.core ++ l) ∧ (∃ l, b.pubLog = a.pubLog ++ l)
 
-theorem WState.Ext.refl (a : WState) : a.Ext a := ⟨⟨[], by simp⟩, ⟨[], by simp⟩, ⟨[], by simp⟩⟩
+theorem WState.Ext.refl (a : WState) : a.Ext a := ⟨⟨[], by simp⟩, ⟨[], by simp⟩, ⟨[], by simp⟩, ⟨[], by simp⟩⟩
 
 theorem WState.Ext.trans {a b c : WState} (h1 : a.Ext b) (h2 : b.Ext c) : a.Ext c := by
-  obtain ⟨⟨l1, e1⟩, ⟨l2, e2⟩, ⟨l3, e3⟩⟩ := h1
-  obtain ⟨⟨m1, f1⟩, ⟨m2, f2⟩, ⟨m3, f3⟩⟩ := h2
+  obtain ⟨⟨l1, e1⟩, ⟨l2, e2⟩, ⟨l3, e3⟩, ⟨l4, e4⟩⟩ := h1
+  obtain ⟨⟨m1, f1⟩, ⟨m2, f2⟩, ⟨m3, f3⟩, ⟨m4, f4⟩⟩ := h2
   exact ⟨⟨l1 ++ m1, by rw [f1, e1, List.append_assoc]⟩, ⟨l2 ++ m2, by rw [f2, e2, List.append_assoc]⟩,
-         ⟨l3 ++ m3, by rw [f3, e3, List.append_assoc]⟩⟩
+         ⟨l3 ++ m3, by rw [f3, e3, List.append_assoc]⟩, ⟨l4 ++ m4, by rw [f4, e4, List.append_assoc]⟩⟩
 
 def extPre : Pre where
   R c c' := c.st.Ext c'.st
@@ -74,8 +74,8 @@ theorem WState.updateRec_core (s : WState) (i g) (h : ∀ r, (g r).core = r.core
 
 /-- a state update that leaves the three components alone -/
 theorem Ext.of_eq {a b : WState} (h1 : b.contexts = a.contexts) (h2 : b.routes = a.routes)
-    (h3 : b.sequence.map Rec.core = a.sequence.map Rec.core) : a.Ext b :=
-  ⟨⟨[], by simp [h1]⟩, ⟨[], by simp [h2]⟩, ⟨[], by simp [h3]⟩⟩
+    (h3 : b.sequence.map Rec.core = a.sequence.map Rec.core) (h4 : b.pubLog = a.pubLog) : a.Ext b :=
+  ⟨⟨[], by simp [h1]⟩, ⟨[], by simp [h2]⟩, ⟨[], by simp [h3]⟩, ⟨[], by simp [h4]⟩⟩
 
 theorem Rel.modifySt_ext {f : WState → WState} (h : ∀ st : WState, st.Ext (f st)) :
     Rel extPre (M.modifySt f) := ⟨fun s => h s.st⟩
@@ -89,24 +89,35 @@ theorem Rel.modify_ext {f : Cond → Cond} (h : ∀ c, (f c).st = c.st) : Rel ex
 
 /-- the pattern every record update in the model has: a field other than the core ones -/
 theorem Ext.updateRec (s : WState) (i g) (h : ∀ r, (g r).core = r.core) : s.Ext (s.updateRec i g) :=
-  Ext.of_eq rfl rfl (WState.updateRec_core s i g h)
+  Ext.of_eq rfl rfl (WState.updateRec_core s i g h) rfl
+
+@[simp] theorem WState.setTask_pubLog (s : WState) (k i) : (s.setTask k i).pubLog = s.pubLog := by
+  unfold WState.setTask; split <;> rfl
+@[simp] theorem WState.updateRec_pubLog (s : WState) (i g) : (s.updateRec i g).pubLog = s.pubLog := rfl
+@[simp] theorem WState.updateStaged_pubLog (s : WState) (k f) : (s.updateStaged k f).pubLog = s.pubLog := rfl
+@[simp] theorem WState.eraseStaged_pubLog (s : WState) (k) : (s.eraseStaged k).pubLog = s.pubLog := rfl
+@[simp] theorem WState.addStaged_pubLog (s : WState) (x) : (s.addStaged x).pubLog = s.pubLog := rfl
+@[simp] theorem WState.removeStaged_pubLog (s : WState) (k) : (s.removeStaged k).pubLog = s.pubLog := by
+  unfold WState.removeStaged; split
+  · rfl
+  · split <;> rfl
 
 theorem Ext.appendRec (st : WState) (r : Rec) (k i) :
     st.Ext (({ st with sequence := st.sequence ++ [r] } : WState).setTask k i) :=
-  ⟨⟨[], by simp⟩, ⟨[], by simp⟩, ⟨[r.core], by simp⟩⟩
+  ⟨⟨[], by simp⟩, ⟨[], by simp⟩, ⟨[r.core], by simp⟩, ⟨[], by simp⟩⟩
 
 theorem Ext.appendRoute (st : WState) (x) : st.Ext { st with routes := st.routes ++ [x] } :=
-  ⟨⟨[], by simp⟩, ⟨[x], by simp⟩, ⟨[], by simp⟩⟩
+  ⟨⟨[], by simp⟩, ⟨[x], by simp⟩, ⟨[], by simp⟩, ⟨[], by simp⟩⟩
 
-theorem Ext.appendCtx (st : WState) (x i g) (h : ∀ r : Rec, (g r).core = r.core) :
-    st.Ext (({ st with contexts := st.contexts ++ [x] } : WState).updateRec i g) :=
-  ⟨⟨[x], by simp⟩, ⟨[], by simp⟩, ⟨[], by simp [WState.updateRec_core _ _ _ h]⟩⟩
+theorem Ext.appendCtx (st : WState) (x i g) (pb) (h : ∀ r : Rec, (g r).core = r.core) :
+    st.Ext (({ st with contexts := st.contexts ++ [x], pubLog := st.pubLog ++ [pb] } : WState).updateRec i g) :=
+  ⟨⟨[x], by simp⟩, ⟨[], by simp⟩, ⟨[], by simp [WState.updateRec_core _ _ _ h]⟩, ⟨[pb], by simp⟩⟩
 
 theorem Ext.appendRerun (st : WState) (x) : st.Ext { st with reruns := st.reruns ++ [x] } :=
-  ⟨⟨[], by simp⟩, ⟨[], by simp⟩, ⟨[], by simp⟩⟩
+  ⟨⟨[], by simp⟩, ⟨[], by simp⟩, ⟨[], by simp⟩, ⟨[], by simp⟩⟩
 
 theorem Ext.setStatus (st : WState) (x) : st.Ext { st with status := x } :=
-  ⟨⟨[], by simp⟩, ⟨[], by simp⟩, ⟨[], by simp⟩⟩
+  ⟨⟨[], by simp⟩, ⟨[], by simp⟩, ⟨[], by simp⟩, ⟨[], by simp⟩⟩
 
 theorem logEntry_ext (e) : Rel extPre (logEntry e) := by
   unfold logEntry
@@ -126,12 +137,12 @@ theorem wfProcessTaskEvent_ext (k ev) : Rel extPre (wfProcessTaskEvent k ev) := 
   · exact WState.Ext.refl _
   · split
     · split
-      · exact Ext.of_eq rfl rfl rfl
+      · exact Ext.of_eq rfl rfl rfl rfl
       · have hk : ∀ xs : List Staged, Rel extPre (M.forEach xs
             fun x => logError "UnreachableJoinError" (some x.id) (some x.route)) :=
           fun xs => Rel.forEach _ (fun x => logEntry_ext _)
-        exact WState.Ext.trans (Ext.of_eq rfl rfl rfl) ((hk _).run _)
-    · exact Ext.of_eq rfl rfl rfl
+        exact WState.Ext.trans (Ext.of_eq rfl rfl rfl rfl) ((hk _).run _)
+    · exact Ext.of_eq rfl rfl rfl rfl
 
 theorem wfProcessWorkflowEvent_ext (req) : Rel extPre (wfProcessWorkflowEvent req) := by
   constructor
@@ -143,12 +154,12 @@ theorem wfProcessWorkflowEvent_ext (req) : Rel extPre (wfProcessWorkflowEvent re
   · exact WState.Ext.refl _
   · split
     · split
-      · exact Ext.of_eq rfl rfl rfl
+      · exact Ext.of_eq rfl rfl rfl rfl
       · have hk : ∀ xs : List Staged, Rel extPre (M.forEach xs
             fun x => logError "UnreachableJoinError" (some x.id) (some x.route)) :=
           fun xs => Rel.forEach _ (fun x => logEntry_ext _)
-        exact WState.Ext.trans (Ext.of_eq rfl rfl rfl) ((hk _).run _)
-    · exact Ext.of_eq rfl rfl rfl
+        exact WState.Ext.trans (Ext.of_eq rfl rfl rfl rfl) ((hk _).run _)
+    · exact Ext.of_eq rfl rfl rfl rfl
 
 theorem tkProcessWorkflowEvent_ext (i req) : Rel extPre (tkProcessWorkflowEvent i req) := by
   constructor
